@@ -1,0 +1,12 @@
+//go:build verif
+
+package ring
+
+// Verification hooks for property C01 (build tag `verif`): add-only, no behaviour.
+
+// VerifRingTokens returns a copy of the token circle (r.ringTokens) the lookups walk.
+func (r *Ring) VerifRingTokens() []uint32 {
+	r.mtx.RLock()
+	defer r.mtx.RUnlock()
+	return append([]uint32(nil), r.ringTokens...)
+}
